@@ -47,7 +47,23 @@ Inductive result (A : Type) := Ok (a : A) | Err (e : err).
 Arguments Ok {A} a.
 Arguments Err {A} e.
 
-(* phys: set bits of the user's mask, OS (physical) indices; osidx: OS index of logical PU i *)
+(* topology::set_cpubind_mask_main_thread(mask) (topology.cpp:1152-1204), called with
+   from_string<mask_type>(--pika:process-mask) also when --pika:ignore-process-mask is given.
+   phys: set bits of the user's mask, OS (physical) indices; osidx: OS index of logical PU i
+   (pu_obj->os_index of hwloc_get_obj_by_depth(topo, pu_depth, i)), ANY numbering.
+   * "bits past the hardware concurrency": the user's mask is compared with the NUMBER of PUs
+     (hardware_concurrency() = get_number_of_pus()), not with the largest OS index:
+       size < concurrency -> resize;  else if size > concurrency && any(mask >> concurrency) -> throw.
+     A mask of 4*digits bits has no set bit >= its size, so both branches together are
+     "some set bit b with total_pus <= b".
+   * "CPU mask is empty": tested on the USER's (OS) mask, before the conversion.  An empty RESULT of
+     the conversion is not rejected here (sparse numbering, bits that name no PU).
+   * conversion loop: for (i = 0; i != get_number_of_pus(); ++i) if (test(mask, os_index(i))) set(logical, i).
+     test(mask, idx) with idx >= mask_size(mask) (possible exactly when OS indices are sparse) is outside
+     the contract of the bitset (PIKA_ASSERT(idx < mask_size(mask)) in debug builds); the release code reads
+     the storage word idx/64: 0 while that word exists (unused bits of a dynamic_bitset are kept 0), past
+     the end of the heap block otherwise (valgrind: invalid read).  Modelled as "reads as unset":
+     [mem _ phys] is false for every index that is not a set bit. *)
 Definition set_process_mask (t : topology) (osidx : list nat) (phys : list nat) : result (nat -> bool) :=
   if existsb (fun b => total_pus t <=? b) phys then Err EMaskPastHw
   else match phys with
@@ -56,6 +72,15 @@ Definition set_process_mask (t : topology) (osidx : list nat) (phys : list nat) 
        end.
 
 Definition count_mask (t : topology) (pm : nat -> bool) : nat := length (filter pm (seq 0 (total_pus t))).
+
+(* the set bits of main_thread_affinity_mask_ (logical indices, ascending) after set_process_mask:
+   what topology::get_cpubind_mask_main_thread() returns from then on *)
+Definition mask_bits (t : topology) (pm : nat -> bool) : list nat := filter pm (seq 0 (total_pus t)).
+Definition process_mask_bits (t : topology) (osidx phys : list nat) : result (list nat) :=
+  match set_process_mask t osidx phys with
+  | Err e => Err e
+  | Ok pm => Ok (mask_bits t pm)
+  end.
 
 (* pu_in_process_mask *)
 Definition in_mask (t : topology) (use : bool) (pm : nat -> bool) (core pu : nat) : bool :=
@@ -339,6 +364,16 @@ Definition startup (t : topology) (b : bind) (use : bool) (pm : nat -> bool) (n 
              | Err e => Err e
              | Ok pools => Ok {| st_pools := pools; st_workers := workers_of ad pools; st_ad := ad |}
              end
+  end.
+
+(* start-up from the user's OS-index mask: command_line_handling::handle_arguments converts
+   --pika:process-mask first (an exception there ends the start-up), everything later reads the
+   converted logical mask through get_cpubind_mask_main_thread() *)
+Definition startup_os (t : topology) (osidx phys : list nat) (b : bind) (use : bool) (n max_cores : nat)
+  (specs : list (list nat)) : result started :=
+  match set_process_mask t osidx phys with
+  | Err e => Err e
+  | Ok pm => startup t b use pm n max_cores specs
   end.
 
 (* --pika:threads=cores / all  (handle_num_threads, get_number_of_default_cores/threads) *)
